@@ -397,3 +397,36 @@ theorem bridge_build (files : List (UnitsFile Rat)) (conv : Converter Rat) (h : 
   exact ⟨hs, wf_of_sound hs (bridge_cfgs conv hok)⟩
 
 end Cook.Bld
+
+namespace Cook
+open Bld
+
+/-! ### comparing two converters of the conversion model (specification side) -/
+
+def FracCfg.tup (c : Cook.FracCfg Rat) : Bool × Rat × Nat × Nat := (c.enabled, c.accuracy, c.maxDen, c.maxWhole)
+
+/-- the same fraction settings; the per-unit table (a hash map in the code) is compared as a map on the ids `< n` -/
+def SameFractions (n : Nat) (a b : Cook.Fractions Rat) : Prop :=
+  a.all.map FracCfg.tup = b.all.map FracCfg.tup ∧
+  a.metric.map FracCfg.tup = b.metric.map FracCfg.tup ∧
+  a.imperial.map FracCfg.tup = b.imperial.map FracCfg.tup ∧
+  a.quantity.map (fun p => (p.1, p.2.tup)) = b.quantity.map (fun p => (p.1, p.2.tup)) ∧
+  (∀ e ∈ a.unit ++ b.unit, e.1 < n) ∧
+  (∀ id ∈ List.range n, (a.unit.lookup id).map FracCfg.tup = (b.unit.lookup id).map FracCfg.tup)
+
+instance (n : Nat) (a b : Cook.Fractions Rat) : Decidable (SameFractions n a b) :=
+  instDecidableAnd (dq := instDecidableAnd (dq := instDecidableAnd (dq := instDecidableAnd (dq := instDecidableAnd))))
+
+/-- the same converter: units (ids, keys, numbers, quantity, system), the best list of every quantity and system entry
+    by entry, default system, fraction table, fraction settings -/
+def SameConverter (a b : Cook.Converter Rat) : Prop :=
+  a.allUnits = b.allUnits ∧
+  (∀ q ∈ PhysQ.all, ∀ s ∈ [System.metric, System.imperial],
+    ((a.best q).conversions s).entries = ((b.best q).conversions s).entries) ∧
+  a.defaultSystem = b.defaultSystem ∧ a.fracTable = b.fracTable ∧
+  SameFractions a.allUnits.length a.fractions b.fractions
+
+instance (a b : Cook.Converter Rat) : Decidable (SameConverter a b) :=
+  instDecidableAnd (dq := instDecidableAnd (dq := instDecidableAnd (dq := instDecidableAnd)))
+
+end Cook
